@@ -9,6 +9,7 @@ import Generated.Ecdsa
 import Generated.Schnorr
 import Model.C04.Domain
 import Model.C04.Verdict
+import Model.C04.Verdict2
 import Model.C04.Switch
 import Generated.Backend
 import Generated.BackendSites
@@ -67,6 +68,50 @@ def verdictOp : List String → Option String
   | ["ssa.sign", arm, q, a] => do
     let q ← parseEnum Scalar.all q; let a ← parseEnum MsgLen.all a
     pure (if arm == "py" then SsaSign.py q a else SsaSign.bind q a).token
+  | ["tap.outroot", arm, k] => do
+    let k ← parseEnum XKey.all k
+    pure (if arm == "py" then TapOutRoot.py k else TapOutRoot.bind k).token
+  | ["tap.outpub", arm, k] => do
+    let k ← parseEnum Sec.all k
+    pure (if arm == "py" then TapOutPub.py k else TapOutPub.bind k).token
+  | ["tap.prvroot", arm, q] => do
+    let q ← parseEnum Scalar.all q
+    pure (if arm == "py" then TapPrv.py q else TapPrv.bind q).token
+  | ["tap.check", arm, q, c] => do
+    let q ← parseEnum QKey.all q; let c ← parseEnum Control.all c
+    pure (if arm == "py" then TapCheck.py q c else TapCheck.bind q c).token
+  | ["bip32", arm, ch, i, il] => do
+    let ch ← parseEnum Chain.all ch; let i ← parseEnum ChildIndex.all i; let il ← parseEnum IL.all il
+    pure (if arm == "py" then Bip32.py ch i il else Bip32.bind ch i il).token
+  | ["musig", arm, m, s, r, k] => do
+    let m ← parseEnum MsgLen.all m; let s ← parseEnum PSig.all s; let r ← parseEnum PubNonce.all r
+    let k ← parseEnum SignerKey.all k
+    pure (if arm == "py" then Musig.py s r k else Musig.bind m s r k).token
+  | ["ell.create", arm, q] => do
+    let q ← parseEnum Scalar.all q
+    pure (if arm == "py" then Ell.createPy q else Ell.createBind q).token
+  | ["ell.decode", arm, a] => do
+    let a ← parseEnum EllLen.all a
+    pure (if arm == "py" then Ell.decodePy a else Ell.decodeBind a).token
+  | ["ell.xdh", arm, a, b, p, q] => do
+    let a ← parseEnum EllLen.all a; let b ← parseEnum EllLen.all b; let p ← parseEnum Party.all p
+    let q ← parseEnum Scalar.all q
+    pure (if arm == "py" then Ell.xdhPy a b p q else Ell.xdhBind a b p q).token
+  | ["ell.encode", arm, k] => do
+    let k ← parseEnum Sec.all k
+    pure (if arm == "py" then Ell.encodePy k else Ell.encodeBind k).token
+  | ["commit", arm, k, c] => do
+    let k ← parseEnum Scalar.all k; let c ← bool? c
+    pure (if arm == "py" then Commit.py k c else Commit.bind k c).token
+  | ["sp.out", arm, k, a] => do
+    let k ← parseEnum KeySum.all k; let a ← parseEnum Addresses.all a
+    pure (if arm == "py" then SpOut.py k a else SpOut.bind k a).token
+  | ["eng.ssa", arm, k, s] => do
+    let k ← parseEnum XKey.all k; let s ← parseEnum SsaSig.all s
+    pure (if arm == "py" then EngineSsa.py k s else EngineSsa.bind k s).token
+  | ["eng.tx", arm, v, _tag] => do
+    let v ← parseEnum TxVector.all v
+    pure (if arm == "py" then TxVerdict.py v else TxVerdict.bind v).token
   | ["sp.scan", arm, c] => do
     let c ← parseEnum SpOutput.all c
     pure (if arm == "py" then SpScan.py c else SpScan.bind c).token
@@ -244,7 +289,8 @@ def handle (toks : List String) : String :=
   | "gen" :: "Backend" :: fn :: args => (Gen.Backend.dispatch fn args).getD "bad-op"
   | "guard" :: rest => (guardOp rest).getD "bad-op"
   | "verdict" :: rest => (verdictOp rest).getD "bad-op"
-  | "sites" :: _ => "ok " ++ " ".intercalate (Gen.BackendSites.SiteId.all.map (·.name))
+  | "sites" :: _ => "ok " ++ " ".intercalate (Gen.BackendSites.SiteId.all.map fun s =>
+      s!"{s.name}={(domainFrom s).replace " " "_"}")
   | _ =>
     match M.op toks with
     | some r => r
